@@ -32,7 +32,15 @@ func (c *specCtx) fail(format string, a ...any) Val {
 	return boolVal(c.x.smt.Fresh("specerr", SBool))
 }
 
-func (x *Exec) evalSpecBool(fr *Frame, st, old *State, n *SpecNode, extra map[string]Val) string {
+func (x *Exec) evalSpecBool(fr *Frame, st, old *State, n *SpecNode, extra map[string]Val) (goal string) {
+	// a clause that cannot be evaluated on the current code (e.g. a name now denotes a value of
+	// another shape) is an undischargeable obligation, not a crash of the verifier
+	defer func() {
+		if r := recover(); r != nil {
+			x.unsupported("spec: clause %q cannot be evaluated on this code: %v", n.Text, r)
+			goal = x.smt.Fresh("specerr", SBool)
+		}
+	}()
 	env := map[string]Val{}
 	var pkg *types.Package
 	if fr != nil {
@@ -396,6 +404,7 @@ func (c *specCtx) fieldOf(xv Val, name string) Val {
 		if !ok {
 			return c.fail("selector .%s on pointer to %v", name, p.Elem())
 		}
+		name = c.x.prog.fieldName(p.Elem(), name)
 		for i := 0; i < st.NumFields(); i++ {
 			if st.Field(i).Name() == name {
 				fp := Val{T: types.NewPointer(st.Field(i).Type()), L: xv.L, PtrPrefix: xv.ptrPrefixOr() + "." + name, PtrIndex: xv.PtrIndex}
@@ -405,6 +414,7 @@ func (c *specCtx) fieldOf(xv Val, name string) Val {
 		return c.fail("no field %s in %v", name, p.Elem())
 	}
 	if st, ok := tt.Underlying().(*types.Struct); ok {
+		name = c.x.prog.fieldName(tt, name)
 		for i := 0; i < st.NumFields(); i++ {
 			if st.Field(i).Name() == name {
 				return xv.field(i)
@@ -427,9 +437,10 @@ func (c *specCtx) addr(e ast.Expr, n *SpecNode) Val {
 		xv := c.expr(t.X, n)
 		if p, ok := xv.T.Underlying().(*types.Pointer); ok {
 			if st, ok := p.Elem().Underlying().(*types.Struct); ok {
+				fname := c.x.prog.fieldName(p.Elem(), t.Sel.Name)
 				for i := 0; i < st.NumFields(); i++ {
-					if st.Field(i).Name() == t.Sel.Name {
-						return Val{T: types.NewPointer(st.Field(i).Type()), L: xv.L, PtrPrefix: xv.ptrPrefixOr() + "." + t.Sel.Name, PtrIndex: xv.PtrIndex}
+					if st.Field(i).Name() == fname {
+						return Val{T: types.NewPointer(st.Field(i).Type()), L: xv.L, PtrPrefix: xv.ptrPrefixOr() + "." + fname, PtrIndex: xv.PtrIndex}
 					}
 				}
 			}
@@ -743,6 +754,7 @@ func (c *specCtx) call(t *ast.CallExpr, n *SpecNode) Val {
 			return c.fail("sameExcept: first argument must be a string literal")
 		}
 		reg, _ := strconv.Unquote(lit.Value)
+		reg = c.x.prog.fixRegion(reg)
 		var bases []string
 		for i := 1; i < len(t.Args); i++ {
 			v := arg(i)
